@@ -316,34 +316,93 @@ class SymAuth:
 def _lit(S, b: bytes):
     return S.StringVal(b.decode("latin-1"))
 
-def encode_fn(fn, S, auth):
+class SymStr:
+    """A symbolic ``str | None`` parameter (e.g. a method name), as its UTF-8 image."""
+
+    def __init__(self, S, tag):  # type: ignore[no-untyped-def]
+        self.none = S.Bool(f"{tag}_none")
+        self.s = S.String(f"{tag}_s")
+
+
+_FRESH = [0]
+
+
+def encode_fn(fn, S, auth, extra=None, side=None):  # type: ignore[no-untyped-def]
+    """String term of ``fn(auth, **extra)``.  ``extra`` maps further parameter names to SymStr / str / None;
+    ``side`` (a list) receives auxiliary constraints (byte decomposition of packed lengths)."""
     tree = ast.parse(textwrap.dedent(inspect.getsource(fn)))
     fdef = tree.body[0]
     args = [a.arg for a in fdef.args.args]
-    if len(args) != 1: raise Unsupported("expected one parameter")
-    env = {args[0]: ("auth", auth)}
+    if not args:
+        raise Unsupported("expected at least one parameter")
+    env = {args[0]: ("auth", auth), "__side__": side if side is not None else []}
+    for name in args[1:]:
+        v = (extra or {}).get(name)
+        if isinstance(v, SymStr):
+            env[name] = ("str", v.none, v.s)
+        elif isinstance(v, str):
+            env[name] = ("str", False, _lit(S, v.encode()))
+        elif v is None:
+            env[name] = ("str", True, S.StringVal(""))
+        else:
+            raise Unsupported(f"parameter {name}")
     r = _block(S, fdef.body, env)
-    if r is None: raise Unsupported("function may fall off the end")
+    if r is None:
+        raise Unsupported("function may fall off the end")
     return r
 
-def _block(S, stmts, env):
+
+def _merge(S, c, a, b):  # type: ignore[no-untyped-def]
+    """Value of a variable after ``if c: ...a... else: ...b...``."""
+    if a is b:
+        return a
+    if a[0] == b[0] == "bytes":
+        return ("bytes", S.If(c, a[1], b[1]))
+    if a[0] == b[0] == "str" and a[1] is False and b[1] is False:
+        return ("str", False, S.If(c, a[2], b[2]))
+    raise Unsupported("branch-dependent variable of unsupported kind")
+
+
+def _block(S, stmts, env):  # type: ignore[no-untyped-def]
     for i, s in enumerate(stmts):
-        if isinstance(s, ast.Expr) and isinstance(s.value, ast.Constant): continue
-        if isinstance(s, ast.Assign) and len(s.targets)==1 and isinstance(s.targets[0], ast.Name):
-            env[s.targets[0].id] = _val(S, s.value, env); continue
+        if isinstance(s, ast.Expr) and isinstance(s.value, ast.Constant):
+            continue
+        if isinstance(s, ast.Assign) and len(s.targets) == 1 and isinstance(s.targets[0], ast.Name):
+            env[s.targets[0].id] = _val(S, s.value, env)
+            continue
         if isinstance(s, ast.Return) and s.value is not None:
             v = _val(S, s.value, env)
-            if v[0] not in ("bytes","str") or (v[0]=="str" and v[1] is not False): raise Unsupported("return of non-bytes/str")
+            if v[0] not in ("bytes", "str") or (v[0] == "str" and v[1] is not False):
+                raise Unsupported("return of non-bytes/str")
             return v[-1]
-        if isinstance(s, ast.If) and not s.orelse:
+        if isinstance(s, ast.If):
             c = _bool(S, s.test, env)
-            t = _block(S, s.body, dict(env))
-            if t is None: raise Unsupported("if-body without return")
-            e = _block(S, stmts[i+1:], env)
-            if e is None: raise Unsupported("no return after if")
-            return S.If(c, t, e)
+            env_t, env_e = dict(env), dict(env)
+            t = _block(S, s.body, env_t)
+            e = _block(S, s.orelse, env_e) if s.orelse else None
+            merged = dict(env)
+            for k in set(env_t) | set(env_e):
+                if k in env_t and k in env_e:
+                    merged[k] = _merge(S, c, env_t[k], env_e[k])
+                # a name bound on one path only is usable only on that path: leave it out
+            rest = _block(S, stmts[i + 1 :], merged) if (t is None or e is None) else None
+            if (t is None or e is None) and rest is None:
+                raise Unsupported("a path falls off the end")
+            return S.If(c, t if t is not None else rest, e if e is not None else rest)
         raise Unsupported(ast.dump(s)[:80])
     return None
+
+
+def _le32(S, n, env):  # type: ignore[no-untyped-def]
+    """struct.pack('<I', n) as four characters b0..b3 with n = sum b_i 256^i (side constraints)."""
+    _FRESH[0] += 1
+    bs = [S.Int(f"__le{_FRESH[0]}_{i}") for i in range(4)]
+    side = env["__side__"]
+    for b in bs:
+        side.append(S.And(b >= 0, b < 256))
+    side.append(n == bs[0] + 256 * bs[1] + 65536 * bs[2] + 16777216 * bs[3])
+    return S.Concat(*[S.StrFromCode(b) for b in bs])
+
 
 def _val(S, n, env):
     if isinstance(n, ast.Constant):
@@ -369,10 +428,22 @@ def _val(S, n, env):
             falsy = S.Length(l[2])==0 if l[1] is False else S.Or(l[1], S.Length(l[2])==0)
             return ("str", False, S.If(falsy, r[2], l[2]))
         raise Unsupported("or")
+    if isinstance(n, ast.Call) and isinstance(n.func, ast.Name) and n.func.id == "len" and len(n.args) == 1:
+        v = _val(S, n.args[0], env)
+        if v[0] == "bytes":
+            return ("int", S.Length(v[1]))
+        raise Unsupported("len of non-bytes")
+    if (isinstance(n, ast.Call) and isinstance(n.func, ast.Attribute) and n.func.attr == "pack" and isinstance(n.func.value, ast.Name) and n.func.value.id == "struct"
+            and len(n.args) == 2 and isinstance(n.args[0], ast.Constant) and n.args[0].value == "<I"):
+        v = _val(S, n.args[1], env)
+        if v[0] == "int":
+            return ("bytes", _le32(S, v[1], env))
+        raise Unsupported("struct.pack of non-int")
     if isinstance(n, ast.Call) and isinstance(n.func, ast.Attribute) and n.func.attr=="encode" and not n.args and not n.keywords:
         v=_val(S,n.func.value,env)
-        if v[0]=="str" and v[1] is False: return ("bytes", v[2])
-        raise Unsupported("encode on possibly-None")
+        # (a None receiver would raise in Python; only guarded uses occur, and the concrete corpus validates the result)
+        if v[0]=="str": return ("bytes", v[2])
+        raise Unsupported("encode on non-str")
     if isinstance(n, ast.JoinedStr):
         parts=[]
         for p in n.values:
@@ -393,7 +464,7 @@ def _bool(S, n, env):
     if isinstance(n, ast.Compare) and len(n.ops)==1 and isinstance(n.ops[0], (ast.Is, ast.IsNot)) and isinstance(n.comparators[0], ast.Constant) and n.comparators[0].value is None:
         v=_val(S,n.left,env)
         none = v[1].is_none if v[0]=="auth" else v[1]
-        if none is False: none = S.BoolVal(False)
+        if none is False or none is True: none = S.BoolVal(none)
         return none if isinstance(n.ops[0], ast.Is) else S.Not(none)
     v=_val(S,n,env)
     if v[0]=="bool": return v[1]
@@ -450,10 +521,10 @@ def _unescape(zs: str) -> str:
     return re.sub(r"\\u\{([0-9a-fA-F]+)\}", lambda m: chr(int(m.group(1), 16)), zs)
 
 
-def eval_string(S, term) -> str:  # type: ignore[no-untyped-def]
+def eval_string(S, term, side=()) -> str:  # type: ignore[no-untyped-def]
     s = S.Solver()
     v = S.String("__v")
-    s.add(v == term)
+    s.add(v == term, *side)
     if str(s.check()) != "sat":
         raise Unsupported("constant term did not evaluate")
     out = s.model()[v].as_string()
@@ -470,17 +541,21 @@ def identity_corpus() -> list:
     return out
 
 
-def validate_identity_translation(fn, as_bytes) -> dict:  # type: ignore[no-untyped-def]
+def validate_identity_translation(fn, as_bytes, method_param: str | None = None) -> dict:  # type: ignore[no-untyped-def]
     """Real function vs its SMT term on the concrete corpus (both solvers)."""
     bad: list = []
     n = 0
+    methods = (None, "", "a", "exchange", "\u00e9x") if method_param else (None,)
     for name, S, _b in solvers():
         for auth in identity_corpus():
-            real = as_bytes(fn(auth))
-            got = eval_string(S, encode_fn(fn, S, ConcAuth(S, auth)))
-            n += 1
-            if got.encode("latin-1", "replace") != real:
-                bad.append({"solver": name, "auth": repr(auth), "real": real.hex(), "model": got.encode("latin-1", "replace").hex()})
+            for mv in methods:
+                real = as_bytes(fn(auth, mv) if method_param else fn(auth))
+                side: list = []
+                term = encode_fn(fn, S, ConcAuth(S, auth), {method_param: mv} if method_param else None, side)
+                got = eval_string(S, term, side)
+                n += 1
+                if got.encode("latin-1", "replace") != real:
+                    bad.append({"solver": name, "auth": repr(auth), "method": mv, "real": real.hex(), "model": got.encode("latin-1", "replace").hex()})
     return {"n": n, "n_disagree": len(bad), "disagreements": bad[:5]}
 
 
@@ -878,6 +953,13 @@ class FakeApp:
 
 def _takes(fn: Any, name: str) -> bool:
     return name in inspect.signature(fn).parameters
+
+
+def call_aad(auth: Any, method: str) -> bytes:
+    """The call-token AAD the live code uses for ``method`` (method-bound once the repository binds it)."""
+    if _takes(st._compute_call_aad, "method_name"):
+        return st._compute_call_aad(auth, method)
+    return st._compute_call_aad(auth)
 
 
 def call_unpack(app: Any, token: Any, call_token: Any, state_info: Any, auth: Any, method_name: str) -> Any:
